@@ -352,6 +352,8 @@ func GetVersionSet(client discovery.ServerResourcesInterface) (chartutil.Version
 	for k := range versionMap {
 		versions = append(versions, k)
 	}
+	// Capabilities.APIVersions is visible to templates: keep its order stable
+	sort.Strings(versions)
 
 	return chartutil.VersionSet(versions), nil
 }
